@@ -133,7 +133,10 @@ def p_like(I, n, pos, kw):
 def p_fill_diagonal(I, n, pos, kw):
     import ast
     target, val = pos[0], pos[1]
-    name = n.args[0].id if n.args and isinstance(n.args[0], ast.Name) else None
+    tnode = n.args[0] if n.args else next((k.value for k in n.keywords if k.arg == "a"), None)
+    name = tnode.id if isinstance(tnode, ast.Name) else None
+    if name is None and isinstance(target, Arr):
+        I.lose("np.fill_diagonal on something that is not a plain variable", n)
     env = I.frames[-1].env
     I.event("fill_diagonal", n, target=target, value=val)
     if isinstance(target, Arr) and target.ndim == 2 and name:
@@ -250,6 +253,36 @@ def p_parallel(I, n, pos, kw):
     # Parallel(n_jobs=...) — calling the result on an iterable of delayed calls runs them and returns the results in
     # the order of the iterable (joblib's documented contract; trusted)
     return ObjV(None, dict(kwargs=dict(kw)), tag="parallel")
+
+
+@prim("builtins.getattr")
+def p_getattr(I, n, pos, kw):
+    if len(pos) >= 2 and isinstance(pos[1], StrV):
+        if isinstance(pos[0], ObjV) and len(pos) == 3 and pos[1].s not in pos[0].attrs and not pos[0].cls:
+            return pos[2]
+        return I.attribute(pos[0], pos[1].s, n, {})
+    return I.unknown("getattr-dynamic-name", n)
+
+
+@prim("builtins.setattr")
+def p_setattr(I, n, pos, kw):
+    if len(pos) == 3 and isinstance(pos[1], StrV):
+        I.set_attribute(pos[0], pos[1].s, pos[2], n)
+        return NoneV()
+    I.lose("setattr with a name that is not a constant string", n)
+    return I.unknown("setattr-dynamic-name", n)
+
+
+@prim("builtins.hasattr")
+def p_hasattr(I, n, pos, kw):
+    if len(pos) == 2 and isinstance(pos[1], StrV) and isinstance(pos[0], ObjV):
+        if pos[1].s in pos[0].attrs:
+            return Sc(sym.TRUE)
+        c = I.p.classes.get(pos[0].cls) if pos[0].cls else None
+        if c is not None and c.lookup(pos[1].s, I.p) is not None:
+            return Sc(sym.TRUE)
+        return Sc(sym.FALSE)
+    return Sc(sym.Opq("config", (), fresh("hasattr")))
 
 
 @prim("builtins.zip")
@@ -485,8 +518,59 @@ def p_mean(I, n, pos, kw):
 @prim("numpy.eye", "numpy.identity")
 def p_eye(I, n, pos, kw):
     if pos and isinstance(pos[0], Sc):
+        dt = kw.get("dtype")
+        if isinstance(dt, FuncV) and dt.target in ("builtins.bool", "numpy.bool_"):
+            return DiagMat(pos[0].e, fresh(), sym.TRUE, sym.FALSE)
         return DiagMat(pos[0].e, fresh(), sym.ONE, sym.ZERO)
     return I.unknown("eye", n)
+
+
+@prim("numpy.block")
+def p_block(I, n, pos, kw):
+    """np.block([[A, B], [C, D]]) of 2-d blocks: the same block matrix slice stores into zeros((r0+r1, c0+c1)) would build"""
+    v = pos[0] if pos else None
+    if not (isinstance(v, Seq) and v.items and all(isinstance(r, Seq) and r.items for r in v.items)):
+        return I.unknown("block", n)
+    rows_ = [list(r.items) for r in v.items]
+    if len({len(r) for r in rows_}) != 1:
+        return I.unknown("block-ragged", n)
+
+    def shape2(x):
+        if isinstance(x, DiagMat):
+            return x.n, x.n
+        a = arrays.to_arr(x) if not isinstance(x, (Arr, Blocks)) else x
+        if isinstance(a, Arr) and a.ndim == 2:
+            return a.axes[0][0].size, a.axes[1][0].size
+        if isinstance(a, Blocks):
+            return a.shape
+        return None
+    shapes = [[shape2(x) for x in r] for r in rows_]
+    if any(sh is None for r in shapes for sh in r):
+        return I.unknown("block-elem", n)
+    heights = [r[0][0] for r in shapes]
+    widths = [sh[1] for sh in shapes[0]]
+    for r, h in zip(shapes, heights):
+        for sh, w in zip(r, widths):
+            if not (sym.equal(sh[0], h) and sym.equal(sh[1], w)):
+                I.event("shape-error", n, message=f"np.block: block of shape ({sym.show(sh[0])}, {sym.show(sh[1])}) where "
+                                                  f"({sym.show(h)}, {sym.show(w)}) is needed")
+                return I.unknown("block-shape", n)
+    total_h, total_w = sym.ZERO, sym.ZERO
+    for h in heights:
+        total_h = sym.add(total_h, h)
+    for w in widths:
+        total_w = sym.add(total_w, w)
+    b = Blocks((total_h, total_w), sym.ZERO, [], None)
+    r0 = sym.ZERO
+    for r, h in zip(rows_, heights):
+        c0 = sym.ZERO
+        for x, w in zip(r, widths):
+            val = x if isinstance(x, (Arr, DiagMat, Blocks)) else arrays.to_arr(x)
+            b.stores.append(dict(r0=r0, r1=sym.add(r0, h), c0=c0, c1=sym.add(c0, w), val=val, node=n, vshape=(h, w)))
+            c0 = sym.add(c0, w)
+        r0 = sym.add(r0, h)
+    I.blocks[b.uid] = b
+    return b
 
 
 @prim("numpy.diag")
@@ -571,6 +655,32 @@ def p_where(I, n, pos, kw):
     if len(pos) != 3:
         return I.unknown("where-1-arg", n)
     c, a, b = pos
+    if isinstance(c, DiagMat):
+        # np.where(np.eye(n, dtype=bool), column[:, None], off): the column's entry i on the diagonal, `off` elsewhere
+        def on_diag(v):
+            if isinstance(v, Sc):
+                return v.e
+            v2 = arrays.to_arr(v) if not isinstance(v, Arr) else v
+            if isinstance(v2, Arr) and v2.ndim == 2 and v2.axes[1][0].concrete == 1 and v2.axes[0][0].size is not None \
+                    and sym.equal(v2.axes[0][0].size, c.n):
+                return sym.subst_ivar(sym.subst_ivar(v2.elem, v2.axes[1][1], 0), v2.axes[0][1], (c.iv, 0))
+            if isinstance(v2, Arr) and v2.ndim == 1 and sym.equal(v2.axes[0][0].size, c.n):
+                # a row vector broadcast along columns: entry j of column j — on the diagonal that is entry i
+                return sym.subst_ivar(v2.elem, v2.axes[0][1], (c.iv, 0))
+            return None
+
+        def off_diag(v):
+            return v.e if isinstance(v, Sc) else None
+        truthy = lambda e: (e == sym.ONE or e == sym.TRUE)
+        falsy = lambda e: (e == sym.ZERO or e == sym.FALSE)
+        if truthy(c.on) and falsy(c.off):
+            on_v, off_v = on_diag(a), off_diag(b)
+            if on_v is not None and off_v is not None:
+                return DiagMat(c.n, c.iv, on_v, off_v)
+        if falsy(c.on) and truthy(c.off):
+            on_v, off_v = on_diag(b), off_diag(a)
+            if on_v is not None and off_v is not None:
+                return DiagMat(c.n, c.iv, on_v, off_v)
     ca = arrays.binop(lambda x, y: sym.Expr(("pair", x, y)), a, b)
     r = arrays.binop(lambda cc, ab: sym.ITE(cc, ab[1], ab[2]) if ab[0] == "pair" else sym.Opq("unmodelled:where", ()),
                      c, ca)
